@@ -1,6 +1,7 @@
 //! Per-property profiles: what is enumerated, with which monitors, at which tier.
 use serde_json::json;
 
+use crate::crash::{crash_leaf, CrashCfg, Oracle};
 use crate::exec::PolicyCfg;
 use crate::ops::*;
 use crate::report::Part;
@@ -27,6 +28,33 @@ fn run_seq(part: &mut Part, profiles: Vec<Profile>, mons: Vec<Monitors>) {
         "configurations": mons.iter().map(|m| json!({"policy": m.policy.unwrap_or(PolicyCfg::Default).name(), "hash_seed": m.hash_seed})).collect::<Vec<_>>(),
     });
     part.stats.sample(|| json!("see bounds.profiles: every sequence of `depth` letters of the alphabet after each seed was executed"));
+}
+
+fn run_crash(part: &mut Part, profiles: Vec<Profile>, cfgs: Vec<CrashCfg>) {
+    let mut descr = vec![];
+    for p in &profiles {
+        descr.push(p.describe());
+    }
+    let stats = explore(&profiles, part.seed, |env, leaf| {
+        for cfg in &cfgs {
+            crash_leaf(env, leaf, cfg);
+        }
+    });
+    part.stats.merge(stats);
+    if part.stats.counters.get("TRACE_DOES_NOT_EXPLAIN_DIRECTORY").copied().unwrap_or(0) > 0 {
+        part.machinery_errors.push("the fs trace does not explain the directory content (a file-system access bypasses the shim?)".into());
+    }
+    if part.stats.counters.get("power_loss_image_cap_hit").copied().unwrap_or(0) > 0 {
+        part.caps_hit.push("power-loss images per crash point capped at 64".into());
+    }
+    let prev = part.bounds.clone();
+    part.bounds = json!({
+        "previous": prev,
+        "crash_profiles": descr,
+        "crash_points": "for each explored prefix, inside its last op: the boundary before, after every file-system effect (create, set_len, write, unlink), and inside every write at every byte (real geometry: first/last 64 bytes, around block boundaries, every 4096th byte of writes > 512 bytes)",
+        "configurations": cfgs.iter().map(|c| json!({"policy": c.policy.name(), "hash_seed": c.hash_seed, "power_loss": c.power_loss, "second_crash": c.second_crash, "continuation_depth_structural": c.cont_struct, "continuation_depth_other": c.cont_other})).collect::<Vec<_>>(),
+    });
+    part.stats.sample(|| json!("see bounds.crash_profiles; each history x each crash point x (second crash) x continuation was executed on the real code"));
 }
 
 fn prof(name: &str, seeds: Vec<Seed>, alphabet: Vec<Op>, depth: usize) -> Profile {
@@ -205,6 +233,100 @@ pub fn run(part: &mut Part) {
             run_seq(part, profiles, vec![mon]);
             part.rule = "every op sequence of the stated depth over A_full; after every call: retained payload + names <= memory_used_bytes <= that + 64 bytes per retained record, used <= allocated, a truncation lowers used by at least the evicted payload bytes, used == names when every queue is empty; distinct_nontrivial = distinct (payload bytes, name bytes, records, used)".into();
             part.require_outcomes(&["truncations_evicting"]);
+        }
+        "C02" => {
+            let mut seeds = vec![seed_ab(), seed_two_files(), seed_gc_ready(), seed_empty_old(), seed_recreated()];
+            seeds.extend(cursor_seeds(&[0, 3], &[0, 6, 7, 8, 19, 34]));
+            seeds.extend(gc_spill_seeds());
+            let profiles = if TINY {
+                vec![
+                    prof("empty x A_write", vec![seed_empty()], a_write(), if q { 3 } else { 4 }),
+                    prof("seeds x A_write", seeds, a_write(), if q { 2 } else { 3 }),
+                ]
+            } else {
+                let mut s = vec![seed_empty()];
+                s.extend(seeds);
+                vec![prof("empty+seeds x A_write", s, a_write(), if q { 1 } else { 2 })]
+            };
+            let hs = probe_hash_seeds(&["a", "b", "f"], if q { 1 } else { 2 });
+            let cfgs: Vec<CrashCfg> = hs.iter().map(|(h, _)| CrashCfg {
+                property: "C02",
+                oracle: Oracle::C02,
+                policy: PolicyCfg::Default,
+                hash_seed: *h,
+                power_loss: false,
+                second_crash: true,
+                cont_struct: 2,
+                cont_other: 1,
+                initial_open: true,
+            }).collect();
+            run_crash(part, profiles, cfgs);
+            part.rule = "every history of the bound x every crash point inside its last op (every fs-effect prefix, every byte of every write) -> directory image rebuilt from the trace -> real open(): must succeed and yield the state before or after the in-flight op (or a partial truncate/delete); every crash point of the recovery's own writes is applied on top and recovered again; then every continuation sequence (depth 1-2 over 7 ops) + restart must behave as on the model. distinct_nontrivial is not separately measured here (states = distinct recovered fingerprints)".into();
+            part.require_outcomes(&["continuations", "recoveries_with_writes_(second_crash_enumerated)"]);
+        }
+        "C03" => {
+            let mut seeds = vec![seed_empty(), seed_ab(), seed_two_files(), seed_gc_ready(), seed_empty_old()];
+            seeds.extend(cursor_seeds(&[3], &[0, 8, 34]));
+            seeds.extend(gc_spill_seeds().into_iter().take(4));
+            let mut alpha = a_write();
+            alpha.push(Op::Persist(false));
+            alpha.push(Op::Persist(true));
+            alpha.push(Op::app(QA, Pos::Auto, Sz::XL));
+            let profiles = if TINY {
+                vec![prof("seeds x (A_write + Persist + XL)", seeds, alpha, if q { 2 } else { 3 })]
+            } else {
+                vec![prof("seeds x (A_write + Persist + XL)", seeds, alpha, if q { 1 } else { 2 })]
+            };
+            let mut cfgs = vec![];
+            for policy in [PolicyCfg::DoNothing, PolicyCfg::DelayNeverFlush, PolicyCfg::DelayExpiredFsync, PolicyCfg::AlwaysFlush, PolicyCfg::AlwaysFsync, PolicyCfg::DelayAltFlush] {
+                for power_loss in [false, true] {
+                    cfgs.push(CrashCfg {
+                        property: "C03",
+                        oracle: Oracle::C03,
+                        policy,
+                        hash_seed: 0,
+                        power_loss,
+                        second_crash: false,
+                        cont_struct: 0,
+                        cont_other: 0,
+                        initial_open: false,
+                    });
+                }
+            }
+            run_crash(part, profiles, cfgs);
+            part.rule = "6 policy configurations x 2 loss models x every history of the bound (explicit persist ops and a roll-over append in the alphabet) x every crash point inside the last op; process crash: image = what reached the OS; power loss: image = durable prefix of directory ops x per-file prefix of unsynced effects; oracle: recovered state is S_j (or a partial truncate/delete of S_j) for some j >= the last persisted point. distinct_nontrivial = distinct (persisted point, crashed op, policy, matched state)".into();
+            part.assumptions.push("power-loss model: file data durable up to its last fdatasync, unsynced effects survive as any prefix per file; directory operations durable as a prefix after the last directory fsync".into());
+        }
+        "C12" => {
+            // crash half; the damage half is added by the DAMAGE engine
+            let batch = |q: u8, sizes: Vec<Sz>| Op::Append { q, pos: Pos::Auto, sizes };
+            let alpha = vec![
+                batch(QA, vec![Sz::S1, Sz::S0, Sz::S5]),
+                batch(QA, vec![Sz::S3, Sz::L]),
+                batch(QA, vec![Sz::L, Sz::S3, Sz::L, Sz::S1]),
+                batch(QA, vec![Sz::S5, Sz::XL, Sz::S3]),
+                batch(QB, vec![Sz::S3, Sz::S3]),
+                Op::Trunc { q: QA, at: Tr::First },
+                Op::Trunc { q: QA, at: Tr::Mid },
+                Op::app(QA, Pos::Auto, Sz::S3),
+                Op::Reopen,
+            ];
+            let mut seeds = vec![seed_ab()];
+            seeds.extend(cursor_seeds(&[0, 3], &[0, 6, 7, 8, 19, 34, 40]));
+            let profiles = vec![prof("cursor seeds x batch alphabet", seeds, alpha, if TINY { if q { 2 } else { 3 } } else if q { 1 } else { 2 })];
+            let cfgs = vec![CrashCfg {
+                property: "C12",
+                oracle: Oracle::C12,
+                policy: PolicyCfg::Default,
+                hash_seed: 0,
+                power_loss: false,
+                second_crash: false,
+                cont_struct: 0,
+                cont_other: 0,
+                initial_open: false,
+            }];
+            run_crash(part, profiles, cfgs);
+            part.rule = "histories of multi-record batches (1 frame .. several blocks .. across two WAL files) at cursor seeds block_end-k / file_end-k, followed by partial truncations; every crash point inside the last op; oracle independent of the model: each batch's recovered positions are none, all, or a suffix whose missing head is covered by an issued truncation, bytes identical".into();
         }
         other => {
             part.machinery_errors
